@@ -16,6 +16,13 @@ from .transformr import may_unproven
 L = 'penman.layout'
 
 
+def _ancestors(pm, node):
+    n = node
+    while id(n) in pm:
+        n = pm[id(n)]
+        yield n
+
+
 def _recv_call(n: ast.AST, attr: str) -> Optional[str]:
     """'x' if n is x.<attr>(...) with x a plain name."""
     if isinstance(n, ast.Call) and isinstance(n.func, ast.Attribute) and n.func.attr == attr and isinstance(n.func.value, ast.Name):
@@ -312,6 +319,7 @@ def r36(ctx: Ctx) -> RuleReport:
     pm2 = repo.parent_map(pc.node)
     inner = [n for n in walk_local(pc.node) if isinstance(n, ast.For) and 'epidata' in norm(n.iter)]
     good = False
+    bad = None
     detail = 'no list collecting one entry per Pop marker that is then extended into the data'
     if len(inner) == 1:
         ev = inner[0].target.id if isinstance(inner[0].target, ast.Name) else None
@@ -325,14 +333,31 @@ def r36(ctx: Ctx) -> RuleReport:
                            and len(m.args[0].elts) == 3]
                     if ext and app and _recv_call(ext[0], 'extend') == _recv_call(app[0], 'append'):
                         an, en = owner_node(cfg2, pm2, app[0]), owner_node(cfg2, pm2, ext[0])
-                        after = en in cfg2.reachable_from([an], avoid=lambda nd: nd.kind == 'for' and nd.ast is not inner[0] and False)
-                        good = after
+                        good = en in cfg2.reachable_from([an])
                         detail = ''
+            # a Pop marker that only sets a flag: several markers on one triple collapse into one
+            if isinstance(n, ast.Assign) and isinstance(n.targets[0], ast.Name) and isinstance(n.value, ast.Constant) and n.value.value is True:
+                if (f'isinstance({ev}, Pop)', True) in facts_at(cfg2, IN2, pm2, n):
+                    bad = (n, f'a Pop marker only sets the flag `{n.targets[0].id}`: a triple that closes several nested nodes (") )") queues a '
+                              f'single POP, so the following branches are attached one level too deep')
+        if good:
+            bad = None          # the markers are collected as well; the flag serves something else
         brk = [n for n in ast.walk(inner[0]) if isinstance(n, ast.Break)]
         if brk:
-            good, detail = False, 'the marker loop can stop early (break): later POPs of the same triple are lost'
-    rep.add('penman.layout:_preconfigure: one POP is queued for every Pop marker of a triple, after the triple', pc.loc(),
-            'ok' if good else 'undecided', detail)
+            bad = (brk[0], 'the marker loop can stop early (break): later POPs of the same triple are lost')
+    if len(inner) == 1:
+        outer = next((a for a in _ancestors(pm2, inner[0]) if isinstance(a, ast.For)), None)
+        if outer is not None:
+            oh, ih = cfg2.node_of(outer), cfg2.node_of(inner[0])
+            path = cfg2.path_avoiding([(oh, 'T')], {oh, cfg2.exit, cfg2.rexit}, lambda nd: nd.id == ih)
+            rep.add('penman.layout:_preconfigure: the markers of every triple are read', pc.loc(outer), 'violation' if path else 'ok',
+                    'a triple can be skipped before its markers are read (' + ' -> '.join(repr(cfg2.nodes[x]) for x in path)[:160] +
+                    '): the POPs it carries are never queued, so the node it closes stays open' if path else '')
+    key = 'penman.layout:_preconfigure: one POP is queued for every Pop marker of a triple, after the triple'
+    if bad is not None:
+        rep.violation(key, pc.loc(bad[0]), bad[1])
+    else:
+        rep.add(key, pc.loc(), 'ok' if good else 'undecided', detail)
     # (c) reader: _configure_node - a Pop datum closes exactly one level; a honoured Push opens exactly one
     cn = repo.func(L, '_configure_node')
     cfg3 = CFG(cn.node)
@@ -354,29 +379,27 @@ def r36(ctx: Ctx) -> RuleReport:
     IN4 = cond_facts(cfg4)
     pm4 = repo.parent_map(nc.node)
     spops = [n for n in walk_local(nc.node) if _recv_call(n, 'pop') == 'stack' and not n.args]
-    ok_pop = False
-    detail = 'stack.pop() is not inside a loop over all markers of the triple under isinstance(marker, Pop)'
+    key = 'penman.layout:node_contexts: the context stack is popped once per Pop marker'
+    if not spops:
+        rep.undecided(key, nc.loc(), 'no stack.pop()')
     for sp in spops:
         lp = None
-        n = sp
-        while id(n) in pm4:
-            n = pm4[id(n)]
-            if isinstance(n, ast.For):
-                lp = n
+        for a in _ancestors(pm4, sp):
+            if isinstance(a, ast.For):
+                lp = a
                 break
-        if lp is None or not isinstance(lp.target, ast.Name):
-            continue
-        it = norm(lp.iter)
-        over_markers = 'epidata' in it and ('triple' in it)
         facts = facts_at(cfg4, IN4, pm4, sp)
+        over_markers = lp is not None and isinstance(lp.target, ast.Name) and 'epidata' in norm(lp.iter)
         if over_markers and (f'isinstance({lp.target.id}, Pop)', True) in facts:
-            early = [x for x in ast.walk(lp) if isinstance(x, (ast.Break, ast.Continue, ast.Return))]
-            if early:
-                detail = 'the marker loop leaves early: a triple closing several nodes pops the context stack only once'
-            else:
-                ok_pop = True
-    rep.add('penman.layout:node_contexts: the context stack is popped once per Pop marker', nc.loc(), 'ok' if ok_pop else 'undecided',
-            '' if ok_pop else detail)
+            early = [x for x in ast.walk(lp) if isinstance(x, (ast.Break, ast.Return))]
+            rep.add(key, nc.loc(sp), 'violation' if early else 'ok',
+                    'the marker loop leaves early (break/return): a triple closing several nodes pops the context stack only once, '
+                    'so every later triple is attributed to a node that is already closed' if early else '')
+        elif any(pol and f.startswith('any(') and 'isinstance(' in f and 'Pop' in f for f, pol in facts):
+            rep.violation(key, nc.loc(sp), 'stack.pop() runs at most once per triple (guarded by any(...Pop...)): a triple closing several '
+                          'nodes pops the context stack only once, so every later triple is attributed to a node that is already closed')
+        else:
+            rep.undecided(key, nc.loc(sp), 'stack.pop() is not inside a loop over all markers of the triple under isinstance(marker, Pop)')
     spush = [n for n in walk_local(nc.node) if _recv_call(n, 'append') == 'stack']
     good = len(spush) == 1 and isinstance(spush[0].args[0], ast.Name) and \
         (spush[0].args[0].id, True) in facts_at(cfg4, IN4, pm4, spush[0])
